@@ -71,7 +71,7 @@ def plan(tier):
                         defs=dict(base, OB_INIT=1, NR=1, CALLOC_SHIFT=shift), ll=ll, timeout=600, fsarray=fs, sanitize=True))
     qs += ctr_rekey_queries(tier)
     return dict(
-        queries=qs, level='model_checking', pre=[pre_layout, pre_ll_diff],
+        queries=qs, level='model_checking', pre=[pre_engine_canaries, pre_layout, pre_ll_diff],
         functions=['{skinny128,skinny64,mantis}_ctr_encrypt / _set_counter dispatchers', '*_ctr_def_{init,set_counter,encrypt}', 'skinny128_ctr_vec128_*, skinny128_ctr_vec256_*, skinny64_ctr_vec128_*, mantis_ctr_vec128_* (clang IR)',
                    'skinny*_inc_counter, *_ctr_increment, skinny*_xor, skinny_xor, *_ecb_encrypt_four/eight'],
         bounds={'method': 'one inductive step from an arbitrary invariant state per (offset, size) point; split independence for every finite call sequence follows by induction over calls (meta-step)',
